@@ -1,5 +1,5 @@
 """C16 — aggregations are exact over the whole match set."""
-GEN = False
+GEN = True             # go/extract/c16.go: dedupNeeded (DocValueReaderForReader), rangeFieldsNested (Range/DateRange .Fields)
 STATELESS = False          # a case = one generated corpus + its requests
 REQUIRED_BRANCHES = [
     "all", "topn", "after", "before", "n0", "after-skip", "shortcut", "evict", "heap-store",
